@@ -1,6 +1,7 @@
 package main
 
 import (
+	"math/rand"
 	"fmt"
 	"sort"
 	"strconv"
@@ -94,6 +95,10 @@ func newWindow(c Case) (window.Window, error) {
 	return nil, fmt.Errorf("unknown window kind %s", kind)
 }
 
+// tsShift (cfg `tsadd`): added to every numeric timestamp token of the running case — real nanosecond epochs lie above
+// 2^53, where a detour through float64 moves a timestamp by up to 128 ns
+var tsShift int64
+
 func rowOf(id string, ts string, key string) map[string]interface{} {
 	n, _ := strconv.ParseInt(id, 10, 64)
 	r := map[string]interface{}{"id": n}
@@ -108,20 +113,59 @@ func rowOf(id string, ts string, key string) map[string]interface{} {
 		r["ts"] = "abc"
 	case strings.HasPrefix(ts, "f"):
 		t, _ := strconv.ParseInt(ts[1:], 10, 64)
-		r["ts"] = float64(t)
+		r["ts"] = float64(t + tsShift)
+	case strings.HasPrefix(ts, "h"), strings.HasPrefix(ts, "q"): // a float64 with a fractional part (.5 / .75): truncated, not rounded
+		t, _ := strconv.ParseInt(ts[1:], 10, 64)
+		r["ts"] = float64(t+tsShift) + map[byte]float64{'h': 0.5, 'q': 0.75}[ts[0]]
 	case strings.HasPrefix(ts, "s"):
-		r["ts"] = ts[1:]
+		t, _ := strconv.ParseInt(ts[1:], 10, 64)
+		r["ts"] = strconv.FormatInt(t+tsShift, 10)
 	case strings.HasPrefix(ts, "t"):
 		t, _ := strconv.ParseInt(ts[1:], 10, 64)
-		r["ts"] = time.Unix(0, t)
+		r["ts"] = time.Unix(0, t+tsShift)
 	default:
 		t, _ := strconv.ParseInt(ts, 10, 64)
-		r["ts"] = t
+		r["ts"] = t + tsShift
 	}
 	if key != "" {
 		r["k"] = key
 	}
 	return r
+}
+
+// bigEpoch: in one case out of eight the timestamps move to a real nanosecond epoch (1.699e18, above 2^53) and the
+// float64-typed ones become decimal strings (a float64 cannot carry such a value exactly, whoever converts it).
+func bigEpoch(rng *rand.Rand, c *Case) {
+	if rng.Intn(8) != 0 {
+		return
+	}
+	for _, l := range c.Cfg {
+		if l[0] == "tsunit" || l[0] == "idle" {
+			return
+		}
+	}
+	fix := func(tok string) string {
+		if strings.HasPrefix(tok, "f") || strings.HasPrefix(tok, "h") || strings.HasPrefix(tok, "q") {
+			return "s" + tok[1:]
+		}
+		return tok
+	}
+	for _, op := range c.Ops {
+		switch op[0] {
+		case "add":
+			op[2] = fix(op[2])
+		case "deliver", "pttick":
+			for i := 1; i < len(op); i++ {
+				p := strings.Split(op[i], ":")
+				if len(p) >= 3 {
+					p[2] = fix(p[2])
+					op[i] = strings.Join(p, ":")
+				}
+			}
+		}
+	}
+	c.Cfg = append(c.Cfg, []string{"tsadd", "1699000000000000000"})
+	c.Stat = append(c.Stat, "ns-epoch-timestamps")
 }
 
 func emissionLine(kind string, rows []types.Row, late bool) []string {
@@ -163,6 +207,8 @@ func emissionLine(kind string, rows []types.Row, late bool) []string {
 //	pttick                           processing time: Trigger()
 func execWindow(c Case) [][][]string {
 	setCfg(&c, "now", itoa(time.Now().UnixNano()))
+	tsShift = cfgInt(c, "tsadd", 0)
+	defer func() { tsShift = 0 }()
 	w, err := newWindow(c)
 	if err != nil {
 		return [][][]string{{{"error", hx(err.Error())}}}
@@ -198,7 +244,7 @@ func execWindow(c Case) [][][]string {
 					line := cur[len(cur)-1]
 					start, _ := strconv.ParseInt(line[1], 10, 64)
 					off, _ := strconv.ParseInt(g.rel[1:], 10, 64)
-					row = rowOf(g.id, itoa(start+off), g.key)
+					row = rowOf(g.id, itoa(start+off-tsShift), g.key) // the emission line carries shifted times; rowOf shifts again
 				}
 				inAdd = true
 				w.Add(row)
